@@ -435,6 +435,15 @@ def task_time_axis(ctx):
     ctx.violation('time_axis.inferred_step_equals_nondimensional_spacing', dict(config=dict(cases=n), kind='time-axis'), dict(problems=bad[:10]), bad[0] + f' ({len(bad)} of {n} cases)')
 
 
+def task_orbital_time(ctx, scale_name):
+  """SolarRadiation.time_to_orbital_time (model time -> orbital phases): reduced to [0, 2 pi) and congruent to reference + rate * elapsed time,
+  for every model time in the stated range and a reference datetime whose phases are not zero.  The clause is the one built for C20
+  (checks/c20.py: the traced method interpreted in the term domain, QF_LIRA, satisfiable verdicts settled on the real method); it is part of
+  this property's statement ("orbital phases are always reduced to [0, 2 pi) consistently with elapsed time")."""
+  from checks import c20
+  return c20.task_orbital_time(ctx, scale_name)
+
+
 def make_tasks(tier, seed):
   tasks = [dict(name='scale-laws-default', fn='task_scale_laws', kw=dict(symbolic_scale=False)),
            dict(name='scale-laws-symbolic', fn='task_scale_laws', kw=dict(symbolic_scale=True)),
@@ -443,6 +452,8 @@ def make_tasks(tier, seed):
            dict(name='minutes-default', fn='task_minutes', kw=dict(scale_name='default', small=1024 if tier == 'quick' else 16384, big_bits=26)),
            dict(name='minutes-odd', fn='task_minutes', kw=dict(scale_name='odd', small=512 if tier == 'quick' else 8192, big_bits=26)),
            dict(name='datetime-orbital', fn='task_datetime_orbital', kw={}),
+           dict(name='orbital-time-default', fn='task_orbital_time', kw=dict(scale_name='default')),
+           dict(name='orbital-time-si', fn='task_orbital_time', kw=dict(scale_name='si')),
            dict(name='time-axis', fn='task_time_axis', kw={})]
   return tasks
 
@@ -459,7 +470,7 @@ def main(tier='quick', seed=0, jobs=None, only=None, t0=None):
                   'multiplicative laws decided in QF_NRA. Time: symbolic doubles (bit-precise Float64 term + (1+d) error-model term) flow through the real '
                   'PrimitiveEquationsSpecs / xarray_utils conversion code up to the numpy integer cast, which is captured; whole seconds and minute-resolution '
                   'datetimes decided bit-precisely in QF_BVFP (z3, then cvc5) on a bounded range and by the error model on the large range; orbital phases '
-                  'from (symbolic) day-of-year / hour / minute in QF_LIRA.',
+                  'from (symbolic) day-of-year / hour / minute, and from symbolic model time through the traced time_to_orbital_time, in QF_LIRA.',
       bounds=dict(magnitudes='[1e-6, 1e6]', base_scales='[1e-3, 1e3] SI', seconds='0..4096 (quick) / 1e5', minutes='|m| <= 1024 bit-precise, |m| <= 2^26 (127 years) error model',
                   years='1979, 1980, 2000, 2023, 2100'),
       assumptions=['pint unit factors are rounded doubles: laws hold to 1e-12 relative', 'numpy boundary contracts: timedelta true division is one double division; astype(int)/int() truncate toward zero',
